@@ -270,8 +270,15 @@ class Translator:
             if tc == "B" and ta in ("Z", "Q") and tb in ("Z", "Q"):
                 return ("(if %s then %s else %s)" % (c, self.toQ((a, ta)), self.toQ((b, tb))), "Q")
             raise Refuse("np.where types %s %s %s" % (tc, ta, tb))
-        if fn_txt == "np.random.uniform" and len(node.args) == 3 and not node.keywords:
-            lo = self.expr(node.args[0], env, sp); hi = self.expr(node.args[1], env, sp)
+        if fn_txt == "np.concatenate" and len(node.args) == 1 and isinstance(node.args[0], ast.List) and not node.keywords:
+            parts = [self.expr(e, env, sp) for e in node.args[0].elts]
+            if parts and all(t == parts[0][1] and is_list(t) for _, t in parts):
+                return ("(" + " ++ ".join(v for v, _ in parts) + ")%list", parts[0][1])
+            raise Refuse("np.concatenate parts")
+        if fn_txt == "np.random.uniform" and (len(node.args) == 3 or {k.arg for k in node.keywords} >= {"low", "high"}):
+            kwd = {k.arg: k.value for k in node.keywords}
+            lo = self.expr(node.args[0] if len(node.args) > 0 else kwd["low"], env, sp)
+            hi = self.expr(node.args[1] if len(node.args) > 1 else kwd["high"], env, sp)
             sp.uses_rng = True
             return ("(%s + (%s - %s) * u__)%%Q" % (self.toQ(lo), self.toQ(hi), self.toQ(lo)), "Q")
         if isinstance(node.func, ast.Attribute) and ast.unparse(node.func.value) in sp.global_dists and node.func.attr in ("cdf", "ppf"):
